@@ -22,6 +22,11 @@ CHECKS = {
             "direct-call entries under arbitrary options; any non-ParseError exception or exhausted line budget is a violation, "
             "bucketed by (exception type, innermost utype frame).",
             "Trusted: sys.monitoring LINE accounting as termination proxy (budget 2e5+2e3*size, re-run at 50x before calling it a hang).", "3/C04"),
+    "C06": ("differential property-based testing (Hypothesis): every generated declaration built twice (data_first_search on/off), same input through both",
+            "hypothesis",
+            "Exploration: generated data classes over the Field/Options product with inputs using names, aliases, case variants, "
+            "duplicates and extra keys; outcomes of the two strategies compared (equal values; same failure kind via the collected error sets).",
+            "Trusted: vf/oracle.py equal/plain; the notion of 'same kind' = (exception class, item) membership in the other strategy's collected set.", "3/C06"),
     "C16": ("model-based stateful PBT (Hypothesis RuleBasedStateMachine) of register/use histories against a cache-free reference model",
             "hypothesis",
             "Exploration: random histories of registrations and conversions over a 6-class hierarchy on three registries "
